@@ -3,6 +3,7 @@ package types
 import (
 	"reflect"
 	"sync"
+	"sync/atomic"
 
 	"github.com/kaptinlin/gozod/core"
 	"github.com/kaptinlin/gozod/internal/checks"
@@ -36,7 +37,10 @@ type ZodLazyInternals struct {
 	core.ZodTypeInternals
 	Def       *ZodLazyDef
 	Getter    func() any
-	innerType core.ZodType[any]
+	// innerType caches the resolved schema. It is written once, inside once.Do,
+	// and read atomically: chaining methods copy it (cloneState) while another
+	// goroutine may be resolving it for the first time.
+	innerType atomic.Pointer[core.ZodType[any]]
 	once      sync.Once
 }
 
@@ -341,9 +345,9 @@ func (z *ZodLazy[T]) cloneState(in *core.ZodTypeInternals) *ZodLazyInternals {
 		ZodTypeInternals: *in,
 		Def:              z.internals.Def,
 		Getter:           z.internals.Getter,
-		innerType:        z.internals.innerType,
 	}
-	if z.internals.innerType != nil {
+	if inner := z.internals.innerType.Load(); inner != nil {
+		cloned.innerType.Store(inner)
 		cloned.once.Do(func() {})
 	}
 	return cloned
@@ -359,8 +363,9 @@ func (z *ZodLazy[T]) CloneFrom(source any) {
 	z.internals.ZodTypeInternals = src.internals.ZodTypeInternals
 	z.internals.Def = src.internals.Def
 	z.internals.Getter = src.internals.Getter
-	z.internals.innerType = src.internals.innerType
-	if src.internals.innerType != nil {
+	inner := src.internals.innerType.Load()
+	z.internals.innerType.Store(inner)
+	if inner != nil {
 		z.internals.once.Do(func() {})
 	}
 	z.internals.Checks = origChecks
@@ -370,9 +375,14 @@ func (z *ZodLazy[T]) CloneFrom(source any) {
 func (z *ZodLazy[T]) resolveInner() core.ZodType[any] {
 	z.internals.once.Do(func() {
 		raw := z.internals.Getter()
-		z.internals.innerType = convertToAnyInterface(raw)
+		if inner := convertToAnyInterface(raw); inner != nil {
+			z.internals.innerType.Store(&inner)
+		}
 	})
-	return z.internals.innerType
+	if inner := z.internals.innerType.Load(); inner != nil {
+		return *inner
+	}
+	return nil
 }
 
 // extractType accepts any value from input.
